@@ -1053,5 +1053,6 @@ func c14Gen(tier string, seed uint64, out *bufio.Writer) {
 		}
 	}
 	c14GenReuse(tier, r, out)
+	c14GenLong(tier, r, out)
 	c14GenBlocks(tier, out)
 }
